@@ -32,7 +32,7 @@ for _c in ('Circuit', 'TruthTable', 'PyFunction'):
     for _q in QUERIES:
         REQUIRED['mon:%s.%s.checked' % (_c, _q)] = 50
 REQUIRED.update({'define:TruthTableModel': 30, 'define:PyFunctionModel': 30, 'define:Function': 10, 'intwrap:unary': 20,
-                 'intwrap:binary': 20, 'model:check': 30, 'requeried_after_edit': 100})
+                 'intwrap:binary': 20, 'intwrap:wide': 10, 'model:check': 30, 'requeried_after_edit': 100})
 EXHAUSTIVE_WHEN = {'quick': ['n=1,2,3,m=1', 'n=1,2,m=2', 'n=1,m=3'],
                    'thorough': ['n=1,2,3,m=1', 'n=1,2,m=2', 'n=1,2,m=3', 'n=3,m=2', 'n=4,m=1']}
 
@@ -555,38 +555,50 @@ def check_extras(case, ctx):
     if kind == 'intwrap':
         from cirbo.core.python_function import PyFunction
         a, b, out_len, big = case['a'], case['b'], case['out_len'], case['big']
+        n = case['in_len']
+        r3 = random.Random(case.get('rseed', 0))
+
+        def to_bits(val, width):
+            return [bool((val >> ((width - 1 - i) if big else i)) & 1) for i in range(width)]
+
+        def values(width, k):
+            if width <= 4:
+                return list(range(1 << width))
+            top = (1 << width) - 1
+            vs = [0, 1, top, top - 1, 1 << (width - 1), (1 << (width - 1)) - 1, 0x5555555555555555555555 & top, 0xAAAAAAAAAAAAAAAAAAAAAA & top]
+            return vs + [r3.getrandbits(width) for _ in range(k)]
+
         try:
             if case['arity'] == 1:
                 fn = lambda v: (v * a + b) % (1 << out_len)
-                pf = PyFunction.from_int_unary_func(fn, case['in_len'], out_len, big_endian=big)
-                n = case['in_len']
-                for k in range(1 << n):
-                    bits = [inp(k, i, n) for i in range(n)]   # bits[0] is the first argument bit
-                    val = sum((1 << (n - 1 - i if big else i)) for i in range(n) if bits[i])
-                    want_num = fn(val)
-                    want = [bool((want_num >> ((out_len - 1 - i) if big else i)) & 1) for i in range(out_len)]
+                pf = PyFunction.from_int_unary_func(fn, n, out_len, big_endian=big)
+                for val in values(n, 24):
+                    bits = to_bits(val, n)   # bits[0] is the first argument bit
+                    want = to_bits(fn(val), out_len)
                     got = list(pf.evaluate(bits))
                     if got != want:
-                        V('PyFunction.from_int_unary_func', 'bit_order', 'f(%d) with big_endian=%r: bits %r -> %r, expected %r' % (val, big, bits, got, want))
+                        V('PyFunction.from_int_unary_func', 'bit_order', 'f(%d) with big_endian=%r, widths %d->%d: got %r, expected %r' % (
+                            val, big, n, out_len, got[:70], want[:70]))
                         break
                 ctx.count('intwrap:unary')
                 if pf.input_size != n or pf.output_size != out_len:
                     V('PyFunction.from_int_unary_func', 'shape', 'sizes %d/%d' % (pf.input_size, pf.output_size))
             else:
-                fn = lambda u, v: (u * a + v + b) % (1 << out_len)
-                n = case['in_len']
+                fn = lambda u, v: (u * a + v + b + (u * v if case.get('mul') else 0)) % (1 << out_len)
                 pf = PyFunction.from_int_binary_func(fn, n, out_len, big_endian=big)
-                for k in range(1 << (2 * n)):
-                    bits = [inp(k, i, 2 * n) for i in range(2 * n)]
-                    u = sum((1 << (n - 1 - i if big else i)) for i in range(n) if bits[i])
-                    v = sum((1 << (n - 1 - i if big else i)) for i in range(n) if bits[n + i])
-                    want_num = fn(u, v)
-                    want = [bool((want_num >> ((out_len - 1 - i) if big else i)) & 1) for i in range(out_len)]
+                us, vs_ = values(n, 6), values(n, 6)
+                pairs = [(u, v) for u in us for v in vs_] if n <= 4 else [(u, v) for u in us[:10] for v in vs_[:10]] + list(zip(us, reversed(vs_)))
+                for u, v in pairs:
+                    bits = to_bits(u, n) + to_bits(v, n)
+                    want = to_bits(fn(u, v), out_len)
                     got = list(pf.evaluate(bits))
                     if got != want:
-                        V('PyFunction.from_int_binary_func', 'bit_order', 'f(%d,%d) big_endian=%r: %r -> %r, expected %r' % (u, v, big, bits, got, want))
+                        V('PyFunction.from_int_binary_func', 'bit_order', 'f(%d,%d) big_endian=%r, widths %d->%d: got %r, expected %r' % (
+                            u, v, big, n, out_len, got[:70], want[:70]))
                         break
                 ctx.count('intwrap:binary')
+            if n > 4 or out_len > 53:
+                ctx.count('intwrap:wide')
         except Exception as e:
             ctx.unexpected('PyFunction.from_int_*_func', e, case)
         ctx.case('intwrap:%r' % sorted(case.items()), True, cls='extras:intwrap')
@@ -606,6 +618,13 @@ def gen_extra(rng):
         fill = [rng.getrandbits(1 << n) for _ in range(m)]
         return {'kind': 'extras', 'sub': 'define', 'n': n, 'm': m, 'rows': rows, 'dc': dc, 'fill': fill,
                 'extra_consistent': rng.random() < 0.3, 'rseed': rng.getrandbits(32)}
+    if rng.random() < 0.35:
+        # machine-word sized wrappers (sampled operands): results beyond 2^53 included
+        n = rng.choice([5, 8, 16, 24, 27, 31, 32, 33, 53, 54, 64])
+        return {'kind': 'extras', 'sub': 'intwrap', 'arity': rng.choice([1, 2]), 'in_len': n,
+                'out_len': rng.choice([n, n + 1, 2 * n, 2 * n, 64, 128]), 'big': rng.random() < 0.5,
+                'a': rng.choice([1, 3, (1 << n) - 1, rng.getrandbits(n) | 1]), 'b': rng.getrandbits(n), 'mul': rng.random() < 0.5,
+                'rseed': rng.getrandbits(32)}
     return {'kind': 'extras', 'sub': 'intwrap', 'arity': rng.choice([1, 2]), 'in_len': rng.randint(1, 3),
             'out_len': rng.randint(1, 5), 'big': rng.random() < 0.5, 'a': rng.randint(1, 7), 'b': rng.randint(0, 9),
             'rseed': rng.getrandbits(32)}
